@@ -74,7 +74,13 @@ impl PreProcessContext {
 
         path = self.replace_placeholders(&path, workspace_str);
 
-        if path.starts_with('~') {
+        // `~` or `~/rest`; anything else starting with `~` (eg. `~name`) is an ordinary relative path
+        let home_rest = if path == "~" {
+            Some("")
+        } else {
+            path.strip_prefix("~/").or_else(|| path.strip_prefix("~\\"))
+        };
+        if let Some(rest) = home_rest {
             let home_dir = match dirs::home_dir() {
                 Some(path) => path,
                 None => {
@@ -82,7 +88,11 @@ impl PreProcessContext {
                     return path;
                 }
             };
-            path = home_dir.join(&path[2..]).to_string_lossy().to_string();
+            path = if rest.is_empty() {
+                home_dir.to_string_lossy().to_string()
+            } else {
+                home_dir.join(rest).to_string_lossy().to_string()
+            };
         } else if path.starts_with("./") {
             path = self
                 .workspace
